@@ -1,6 +1,7 @@
 import ShellOp.Util
 import ShellOp.Model.Conversion
 import ShellOp.Model.ConversionOverlap
+import ShellOp.Model.ConversionGlue
 /-! Line-protocol suite for C15 (conversion chains). Core-only.
 
 ops
@@ -80,14 +81,18 @@ def showObjs (l : List Obj) : String := showStrs (l.map fun o => s!"{o.id}@{show
 untouched · `d<n>` n objects at the desired apiVersion · `m<n>:<msg>` failedMessage + n objects ·
 `p<letters>` one returned object per letter: `c` converted (the rule's toVersion) · `d` at the desired
 apiVersion · `o` left as it came · `n` apiVersion removed · `b` `{}` · `z` `null` (an object without
-apiVersion decodes to the empty version, one without a name is number 0) -/
+apiVersion decodes to the empty version, one without a name is number 0).
+A leading capital letter = what the hook does on its other output channels besides that: `M` a metric
+operation that is not valid · `P` an object-patch operation that is not valid · `G` a valid metric
+operation (`Glue.stepOut`: what the handler sees of such a run). -/
 inductive Item where
   | x | e
   | k (n : Nat) | w (n : Nat) | d (n : Nat)
   | m (n : Nat) (msg : String)
   | p (letters : List Char)
+  | side (ch : Char) (it : Item)
 
-def parseItem (s : String) : Option Item :=
+def parseItem0 (s : String) : Option Item :=
   match s.splitOn ":" with
   | ["x"] => some .x
   | ["j"] => some .x
@@ -102,6 +107,13 @@ def parseItem (s : String) : Option Item :=
   | [t, msg] =>
     if t.startsWith "m" && msg != "" then (t.drop 1).toString.toNat?.map (fun n => .m n msg) else none
   | _ => none
+
+def parseItem (s : String) : Option Item :=
+  match s.toList with
+  | ch :: rest =>
+    if ch == 'M' || ch == 'P' || ch == 'G' then (parseItem0 (String.ofList rest)).map (.side ch)
+    else parseItem0 s
+  | [] => parseItem0 s
 
 def full (group v : Ver) : Ver := if (afterSlash v).isSome then v else group ++ ['/'] ++ v
 
@@ -139,6 +151,16 @@ def interp (group desired : Ver) (it : Item) (r : Rule) (input : List Obj) : Hoo
   | .d n => .resp "" (mkOut n input (some desired))
   | .m n msg => .resp msg (mkOut n input (some (full group r.dst)))
   | .p ls => .resp "" (mkMixed ls input (full group r.dst) desired)
+  | .side ch it =>
+    -- the hook process does `it`; what the handler sees of the run is decided by all its channels
+    let inner := interp group desired it r input
+    Glue.stepOut {
+      exitOk := inner != .exitFail
+      patchOk := ch != 'P'
+      metricsOk := ch != 'M'
+      resp := match inner with
+        | .resp m o => some (m, o)
+        | _ => none }
 
 def showMsg : Msg → String
   | .own s => "own:" ++ s
@@ -229,9 +251,18 @@ def parseHanded (rest : List String) : Option (String × List String) :=
   | _, _ => none
 
 def oracleE2E (rest : List String) : String :=
+  -- a run the harness saw under a hook / binding that did not declare the rule for the CRD of the request
+  if (((kv? "inv" rest).getD "").splitOn "ran-in-a-hook-or-binding-that-did-not-register-it").length > 1 then
+    (match (parseHanded rest).bind (fun h => Glue.reviewCheck h.2) with
+     | some why => "false " ++ why
+     | none => "false a-run-was-made-under-a-binding-that-did-not-declare-the-rule-for-this-crd")
+  else
   match parseE2E rest, (kv? "inv" rest).bind parseInv, parseReply rest, parseHanded rest with
   | some e, some inv, some reply, some (req, handed) =>
     if handed.length != inv.length then "bad-op" else
+    match Glue.reviewCheck handed with
+    | some why => "false " ++ why
+    | none =>
     match Overlap.handedCheck req handed with
     | some why => "false " ++ why
     | none =>
